@@ -41,7 +41,9 @@ class C40(Prop):
                   'show; asyncio atomicity between awaits and its cancellation delivery (Task.cancel / _must_cancel) as implemented by CPython 3.12.')
     budget = {'quick': 5000, 'thorough': 40000}
     search_budget = {'quick': 6000, 'thorough': 40000}
-    rule = ('case = (max, list of groups of ops); jobs are coroutines `async with sem.acquire_manager(w): await gate`; ops: a=spawn a job, '
+    rule = ('case = (max, list of groups of ops[, weights of shared manager objects]); jobs are coroutines `async with '
+            'sem.acquire_manager(w): await gate` — or `async with m:` for a manager object m created once per case and entered again and '
+            'again, sequentially and by concurrent tasks; ops: a=spawn a job, '
             '(with an optional j: the task is cancelled at its j-th suspension, wherever that is — a task-step hook counts every time the '
             'task hands control back to the loop, so every await point of acquire, present or future, can be hit), '
             'r=open its gate, f=open its gate with an exception, c=Task.cancel() issued directly, cs=Task.cancel() issued from a callback '
@@ -91,7 +93,7 @@ class C40(Prop):
                 self.cnt.pop(i, None)
                 if w > self.max:
                     return
-                if len(o) > 3:          # cancel at its o[3]-th suspension; after this block it is suspended for the first time
+                if len(o) > 3 and o[3]:  # cancel at its o[3]-th suspension; after this block it is suspended for the first time
                     if o[3] == 1:
                         self.late.append(i)
                     else:
@@ -151,7 +153,7 @@ class C40(Prop):
         """order in which the blocks of a group execute: directly issued actions in order, then the `cs` cancellations"""
         return [o for o in g if o[0] != 'cs'] + [o for o in g if o[0] == 'cs']
 
-    def _random_group(self, rng, s, max_tasks, p_multi, p_step=0.0):
+    def _random_group(self, rng, s, max_tasks, p_multi, p_step=0.0, mgrs=()):
         n_ops = 1 if rng.random() > p_multi else rng.choice([2, 2, 3])
         used = set()
         g = []
@@ -184,8 +186,12 @@ class C40(Prop):
                     w = s.max + 1                       # hits `assert n <= self.max`
                 if rng.random() < 0.05:
                     w = 0
-                if rng.random() < p_step:
-                    g.append(['a', i, w, rng.choice([1, 1, 2, 3])])   # cancelled at its j-th await point, whatever that is
+                j = rng.choice([1, 1, 2, 3]) if rng.random() < p_step else 0   # cancelled at its j-th await point, whatever that is
+                if mgrs and rng.random() < 0.6:
+                    gi = rng.randrange(len(mgrs))                   # enters the shared manager object gi (again)
+                    g.append(['a', i, mgrs[gi], j, gi])
+                elif j:
+                    g.append(['a', i, w, j])
                 else:
                     g.append(['a', i, w])
             elif kind in ('r', 'f'):
@@ -205,24 +211,25 @@ class C40(Prop):
         n = rng.choice([3, 5, 7, 10, 14])
         p_multi = rng.choice([0.0, 0.3, 0.6])
         p_step = rng.choice([0.0, 0.15, 0.3])
+        mgrs = [] if rng.random() < 0.55 else [rng.randint(1, m) for _ in range(rng.choice([1, 1, 2]))]
         groups = []
         s = self._Sim(m)
         for _ in range(n):
-            g = self._random_group(rng, s, max_tasks, p_multi, p_step)
+            g = self._random_group(rng, s, max_tasks, p_multi, p_step, mgrs)
             if not g:
                 break
             groups.append(g)
             for o in self._ordered(g):
                 s.op(o)
             s.settle()
-        return {'max': m, 'groups': groups}
+        return {'max': m, 'groups': groups, **({'mgrs': mgrs} if mgrs else {})}
 
     def _exhaustive(self, m, length, max_tasks, pairs=True):
         out = []
 
         def rec(groups):
             if len(groups) == length:
-                out.append({'max': m, 'groups': [[list(o) for o in g] for g in groups]})
+                out.append({'max': m, 'groups': [[list(o) for o in g] for g in groups], 'mgrs': [1]})
                 return
             s = self._replay_sim(m, groups)
             active = s.active()
@@ -231,6 +238,7 @@ class C40(Prop):
                 i = min(j for j in range(max_tasks) if j not in active)
                 nxt += [[['a', i, w]] for w in range(0, m + 1)]
                 nxt += [[['a', i, w, j]] for w in range(1, m + 1) for j in (1, 2)]     # cancelled at its 1st / 2nd await point
+                nxt += [[['a', i, 1, j, 0]] for j in (0, 1)]                           # enters the ONE shared manager (weight 1)
             holders = sorted(s.holders)
             waiters = [i for _, _, i in s.waiters]
             nxt += [[['r', i]] for i in holders]
@@ -291,7 +299,8 @@ class C40(Prop):
             return []          # caller-level case: no model lines, the oracle works on the observations of the real copier
         out = ['reset', f"max {c['max']}"]
         for g in c['groups']:
-            out.append(';'.join(' '.join([self._NAMES[o[0]]] + [str(x) for x in o[1:]]) for o in self._ordered(g)))
+            # (a 5th element of an acquire op names the shared manager object it enters; for the model a manager is the value (sema, n))
+            out.append(';'.join(' '.join([self._NAMES[o[0]]] + [str(x) for x in o[1:4]]) for o in self._ordered(g)))
         return out
 
     # ---- real code -----------------------------------------------------------------------------
@@ -338,8 +347,11 @@ class C40(Prop):
                 return real_release(n)
             sem.release = counting_release      # instance attribute: `_AcquireManager.__aexit__` and `acquire` both call `ws.release`
 
-            async def job(i, w, gate):
-                async with sem.acquire_manager(w):
+            managers = [sem.acquire_manager(w) for w in c.get('mgrs', [])]     # created ONCE, entered any number of times
+            in_mgr = {}          # manager index -> tasks currently inside it (measurement)
+
+            async def job(i, w, gate, mgr=None):
+                async with (sem.acquire_manager(w) if mgr is None else managers[mgr]):
                     inside.add(i)
                     # the property at the moment a body starts (woken waiters that have not run yet own their weight already)
                     running = sum(weights[j] for j in inside)
@@ -394,7 +406,17 @@ class C40(Prop):
                                 where = 'body' if i in inside else 'acquire'
                                 info['step_cancel_' + where] = info.get('step_cancel_' + where, 0) + 1
                                 s.loop.call_soon(tasks[i].cancel)
-                        tasks[i] = s.spawn(i, aloop.stepped(job(i, o[2], s.gate((i, gen[i]))), on_suspend), settle=False)
+                        mgr = o[4] if len(o) > 4 else None
+                        if mgr is not None:
+                            if weights[i] != c['mgrs'][mgr]:
+                                raise ValueError('case: weight of an op that enters a shared manager must be the manager weight')
+                            users = in_mgr.setdefault(mgr, {'n': 0, 'live': set()})
+                            users['live'] = {j for j in users['live'] if j in tasks and not tasks[j].done()}
+                            info['mgr_reentered'] = info.get('mgr_reentered', 0) + (1 if users['n'] else 0)
+                            info['mgr_shared_concurrently'] = info.get('mgr_shared_concurrently', 0) + (1 if users['live'] else 0)
+                            users['n'] += 1
+                            users['live'].add(i)
+                        tasks[i] = s.spawn(i, aloop.stepped(job(i, o[2], s.gate((i, gen[i])), mgr), on_suspend), settle=False)
                         all_tasks.append(tasks[i])
                         spawned.append(i)
                     elif o[0] == 'r':
@@ -535,6 +557,10 @@ class C40(Prop):
                 tags.append(name)
         if any(o[0] == 'f' for g in c['groups'] for o in g):
             tags.append('exit-by-exception')
+        if info.get('mgr_reentered'):
+            tags.append('manager-object-entered-again')
+        if info.get('mgr_shared_concurrently'):
+            tags.append('manager-object-shared-by-concurrent-tasks')
         if any('a=' in l and not l.endswith('a=') for l in out):
             tags.append('assertion')
         if 'err' in out:
